@@ -5,6 +5,7 @@ go 1.24
 toolchain go1.24.0
 
 require (
+	github.com/go-json-experiment/json v0.0.0-20250213060926-925ba3f173fa
 	github.com/golang/snappy v1.0.0
 	github.com/philpearl/avro v0.0.0
 	github.com/unravelin/null/v5 v5.0.1
@@ -12,7 +13,6 @@ require (
 )
 
 require (
-	github.com/go-json-experiment/json v0.0.0-20250213060926-925ba3f173fa // indirect
 	github.com/josharian/intern v1.0.0 // indirect
 	github.com/mailru/easyjson v0.7.7 // indirect
 )
